@@ -10,6 +10,7 @@ from kernel.proofterm import ProofTerm
 from logic import basic
 from logic import logic
 from logic.conv import rewr_conv, every_conv, top_conv
+from util import name
 
 
 def is_logical(t):
@@ -43,10 +44,14 @@ def encode(t):
     substitutions of As on F.
 
     """
-    # Mapping from subterms to newly introduced variables
+    # Mapping from subterms to newly introduced variables. Their names
+    # must differ from those of the variables of t.
+    used_names = [v.name for v in t.get_vars()]
     subterm_dict = dict()
     for i, subt in enumerate(logic_subterms(t)):
-        subterm_dict[subt] = Var('x' + str(i+1), BoolType)
+        nm = name.get_variant_name('x' + str(i+1), used_names)
+        used_names.append(nm)
+        subterm_dict[subt] = Var(nm, BoolType)
 
     # Collect list of equations
     eqs = []
